@@ -287,8 +287,9 @@ void Creator::addPart( const Definition::Part& part)
       {
          if (mCheckPathSep)
          {
+            // an empty text has no last character
             const int  num_sep =
-               (last->mConstant[ last->mConstant.length() - 1] == '/')
+               (!last->mConstant.empty() && (last->mConstant.back() == '/'))
                + (part.mConstant[ 0] == '/');
 
             if (num_sep == 0)
